@@ -263,6 +263,17 @@ ApiUnsubscribe(l, f) ==
   /\ UNCHANGED <<conn, sess, ret, closed>>
   /\ Log([a |-> "apiunsubscribe", l |-> l, f |-> Join(f)])
 
+(* The direction broker -> client of a connection breaks while the other direction stays (a half-dead TCP connection: the
+   broker's writes fail, its reads just see nothing more).  Nothing the broker holds changes: the connection's subscriptions
+   stay until the connection ends, deliveries to it are lost - and nobody else notices (C05): publishes are accepted,
+   retained and forwarded to everybody else as before.  What the specification lists as output for a broken connection is
+   not compared by the replayer; a broken connection sends nothing more until it ends.                                 *)
+BreakOut(c) ==
+  /\ c \in Conns /\ Up(c)
+  /\ out' = O0
+  /\ UNCHANGED <<conn, sess, subs, ret, closed>>
+  /\ Log([a |-> "breakout", c |-> c])
+
 -----------------------------------------------------------------------------
 InitWith(C, S, U, R) ==
   /\ conn = C /\ sess = S /\ subs = U /\ ret = R
